@@ -202,6 +202,22 @@ def oracle_factory(ctx):
             return Failure("C08/%s/tell-not-absolute" % key, "Tell after the inner field reports %r, expected %d | %s" % (v.t1, t1, where))
         if s.tell() != after:
             return Failure("C08/%s/outer-position" % chain[0][0], "after parse_stream the outer stream is at %d, the contract of %s says %d | %s" % (s.tell(), chain[0], after, where))
+        # the same region skipped instead of parsed (Lazy measures it through _actualsize): same outer position, and the deferred
+        # parse sees the same region at the same absolute offsets without moving the outer stream
+        if chain[0][0] in ("prefixed", "fixedsized"):
+            s2 = io.BytesIO(data)
+            s2.seek(start)
+            lo = call(C.Lazy(con).parse_stream, s2)
+            ctx.record([case, "lazy"], True, ["lazy-skip/" + chain[0][0]])
+            if not lo.ok:
+                return Failure("C08/%s/lazy-rejects" % chain[0][0], "Lazy(region) raised %r although the region parses | %s" % (lo, where))
+            if s2.tell() != after:
+                return Failure("C08/%s/lazy-outer-position" % chain[0][0], "after skipping the region lazily the outer stream is at %d, the contract of %s says %d | %s" % (s2.tell(), chain[0], after, where))
+            lv = call(lo.value)
+            if not lv.ok or lv.value.t0 != v.t0 or lv.value.t1 != v.t1 or (obs[0] != "rawcopy" and lv.value.g != v.g):
+                return Failure("C08/%s/lazy-region-content" % chain[0][0], "deferred parse of the skipped region -> %r, eager %s | %s" % (lv, short(v), where))
+            if s2.tell() != after:
+                return Failure("C08/%s/lazy-moves-outer" % chain[0][0], "evaluating the deferred region moved the outer stream to %d (was %d) | %s" % (s2.tell(), after, where))
         return None
     return oracle
 
